@@ -48,6 +48,13 @@ func runC15(c *core.Check) {
 	c15.StartPeekerRecording(sample, 5000)
 	streamTLC(c, core.TLCRun{Module: "MC_C15", Parts: 4, Consts: consts, Timeout: minutes(40), KeepVars: []string{"e", "dmg"}},
 		func(st core.State) { c15.Handle(c, st) })
+	if c.Tier == "thorough" {
+		// pairs of damages (small alphabet, 4 positions) on the productions of one leaf
+		two := map[string]string{"MaxK": "2", "BaseMode": "\"tiny\"", "MaxPos": "3"}
+		c.Extra["constants_pairs"] = two
+		streamTLC(c, core.TLCRun{Module: "MC_C15", Parts: 4, Consts: two, Timeout: minutes(40), KeepVars: []string{"e", "dmg"}},
+			func(st core.State) { c15.Handle(c, st) })
+	}
 	c15.FinishPeekerRecording(c)
 	// the same protocol on every parse the repository's own tests perform (their syntax-error tables
 	// are the fault-heavy inputs the maintainers care about): the suite is built with the hook tag and
